@@ -200,6 +200,9 @@ func (p *propC08) Gen(idx int) *Scenario {
 	if r.Chance(1, 2) {
 		n = r.Range(2, 8)
 	}
+	if r.Chance(1, 50) {
+		n = r.Range(70, 140) // long histories (caches and tables sized for "a few" calls)
+	}
 	var decodes []int
 	for len(sc.History) < n {
 		var t Task
